@@ -28,6 +28,10 @@ type Case struct {
 	Masks    map[string]string `json:"masks"`    // read_write buffers: per byte 0 pad, 1 exact, 2 tolerance, 3 exact float (±0 equal)
 	RefSteps int64             `json:"ref_steps"`
 	Opts     map[string]string `json:"opts,omitempty"`
+	// Overrides: pipeline-constant values by key ("<id>" or name), applied according to
+	// Opts["ovroute"]: "process" (ir.ProcessOverrides on a clone, then the backend) or
+	// "pipeline" (the backend's PipelineConstants option; GLSL and MSL only).
+	Overrides map[string]float64 `json:"overrides,omitempty"`
 	Note     string            `json:"note,omitempty"`
 }
 
